@@ -179,7 +179,8 @@ static void write_setfile_version(rng_t *r)
 	int order[NF]; for (int i = 0; i < NF; i++) order[i] = i;
 	for (int i = NF - 1; i > 0; i--) { int j = rndn(r, i + 1); int t = order[i]; order[i] = order[j]; order[j] = t; }   /* lines in any order */
 	int p = 300 + rndn(r, 600);
-	for (int i = 0; i < NF; i++) if (rndp(r, p)) { const char *b = strrchr(G.disk[order[i]].path, '/') + 1; if (rndp(r, 500)) fprintf(f, "%s\n", b); else fprintf(f, "%s\n", G.disk[order[i]].path); }
+	for (int i = 0; i < NF; i++) if (rndp(r, p)) { const char *b = strrchr(G.disk[order[i]].path, '/') + 1; int inside = strncmp(G.disk[order[i]].path, G.dir, strlen(G.dir)) == 0 && G.disk[order[i]].path[strlen(G.dir)] == '/';
+		if (inside && rndp(r, 500)) fprintf(f, "%s\n", b); else { fprintf(f, "%s\n", G.disk[order[i]].path); if (!inside) STAT("actions.setfile_line_absolute_outside_setfile_directory"); } }
 	if (rndp(r, 250)) fprintf(f, "never-existed.mtbl\n");
 	if (rndp(r, 250)) fprintf(f, "%s\n", rndp(r, 500) ? "junk.bin" : G.junk);
 	if (rndp(r, 150)) fprintf(f, "\n");                       /* a blank line resolves to the setfile's directory: exists, is not a table */
@@ -266,7 +267,11 @@ static void case_c07(const args_t *a, long c, rng_t *r)
 	snprintf(G.junk, sizeof G.junk, "%s/junk.bin", G.dir); { uint8_t b[1500]; for (size_t i = 0; i < sizeof b; i++) b[i] = (uint8_t)rnd64(r); write_file(G.junk, b, sizeof b); }
 	shape_t sh; gen_shape(r, &sh, 1024, 0); if (sh.pfx_len > 60) sh.pfx_len = 60;
 	gen_model(r, &sh, 8 + rndn(r, 60), rndp(r, 300), &G.universe); shape_free(&sh);
-	for (int d = 0; d < NF; d++) { snprintf(G.disk[d].path, sizeof G.disk[d].path, "%s/f%d.mtbl", G.dir, d); if (rndp(r, 700)) write_table_file(r, d); }
+	/* in a third of the histories every third table lives in a sibling directory (named by absolute path only: a different directory prefix
+	 * than the setfile's own, in front of and behind relative lines) */
+	int side = rndn(r, 3) == 0;
+	char sidedir[300]; snprintf(sidedir, sizeof sidedir, "%s.side", G.dir); if (side) { mkdir(sidedir, 0700); STAT("histories.with_tables_in_a_sibling_directory"); }
+	for (int d = 0; d < NF; d++) { snprintf(G.disk[d].path, sizeof G.disk[d].path, "%s/f%d.mtbl", side && d % 3 == 2 ? sidedir : G.dir, d); if (rndp(r, 700)) write_table_file(r, d); }
 	write_setfile_version(r);
 	{ static const long T0[] = {0, 0, 1, 4, 30, 59, 1000, 86400}; G.vnow.tv_sec = PICK(r, T0) + (long)rndn(r, 2); G.vnow.tv_nsec = 1 + rndn(r, 1000); }   /* also a process started right after boot */
 	G.forced_pending = 1;          /* a fresh fileset must load on its first source operation */
@@ -383,7 +388,7 @@ static void case_c07(const args_t *a, long c, rng_t *r)
 	{ uint64_t hh = 0; for (int i = 0; i < ntrace && i < 64; i++) hh = fnv64(trace[i], strlen(trace[i]), hh); case_hash(hh ^ (uint64_t)c); }
 	for (int i = 0; i < G.nview; i++) model_free(&G.view[i].content);
 	for (int d = 0; d < NF; d++) delete_table_file(d);
-	unlink(G.junk); unlink(G.setfile); rmdir(G.dir);
+	unlink(G.junk); unlink(G.setfile); rmdir(G.dir); if (side) rmdir(sidedir);
 	model_free(&G.universe);
 }
 
